@@ -320,7 +320,7 @@ func (r *Reader) readFiles(roots []string, opts walkerOpts, ignores []string) bo
 				// A symbolic link to a directory that we follow is a directory
 				isDir = true
 				base := filepath.Base(path)
-				if !opts.hidden && base[0] == '.' && base != ".." {
+				if !opts.hidden && base[0] == '.' && base != "." && base != ".." {
 					return filepath.SkipDir
 				}
 				for _, ignore := range ignoresBase {
